@@ -27,7 +27,8 @@ RULE = ("(a) every single-line text over the 16-symbol class alphabet "
         "nesting <=6 with character noise.  Each text is observed twice "
         "(recording context, schemaless).  Non-trivial = at least one line "
         "that is neither blank nor comment; distinct_nontrivial = distinct "
-        "(line-class sequence, outcome, reason) signatures.")
+        "(line-class sequence, outcome, reason) signatures."
+        " Family 'foreign': lines in the syntax of other configuration languages, spaced or truncated directive names, U+001A.")
 LEVEL_TEXT = ("Every text of the bounded spaces (a) and (b) is executed "
               "through the real parser and compared with an independent "
               "reference reader: any misreading of a line shape that shows "
